@@ -112,7 +112,7 @@ class C07(core.Check):
     prop = "C07"
     flavours = ["asan"]
     rule = ("per sample file (all 4 lead checksum types): digest string with EVERY position x all 256 byte values (exhaustive), upper/lower/mixed case, "
-            "wrong digests whose differences cancel under folding (swapped words, paired bit flips, sum-preserving, reversed), wrong lengths, a wrong pin followed by a refused setter call and zck_clear_error (the pin must stay in force), pinned-vs-actual type grid, length pins (exact, +-1, 0, 2^63-1, negative), both setter orders, validate_lead followed by "
+            "wrong digests whose differences cancel under folding (swapped words, paired bit flips, sum-preserving, reversed), wrong lengths, a wrong pin followed by a refused setter call and zck_clear_error (the pin must stay in force), pinned-vs-actual type grid, length pins (exact, +-1, 0, 2^63-1, negative), both setter orders, pins set or changed between zck_validate_lead and the open, validate_lead followed by "
             "read_lead/read_header on the same context, pins taken from F0 presented with F1 (other file, re-sealed mutated header, mutated header with old "
             "checksum); the image presented through a pipe / FIFO / socket pair / behind another image in the same descriptor. distinct = (class, file, op sequence)")
     assumptions = ["expected verdicts from Python hex/bytes semantics and the reference parse of each image"]
@@ -230,6 +230,17 @@ class C07(core.Check):
                 add("pin-survives-refused-set", name, [T, "D" + hx.hex(), "D" + bad.hex(), "c", "D" + wrongd.hex(), "c", "v", "l"], [1, 1, 0, None, None, None, 0, 0])
             add("pin-survives-refused-set", name, [T, "D" + wrongd.hex(), "L-1", "c", "v", "l"], [1, 1, 0, None, 0, 0], "refused length pin")
             add("pin-survives-refused-set", name, [T, "D" + wrongd.hex(), "T-1", "c", "v", "l"], [1, 1, 0, None, 0, 0], "refused type pin")
+            # pins set or changed between a lead-only validation and the open on the same context: the lead is read again, under the pins then in force
+            for tail, te in ((["l"], [0]), (["v"], [0]), (["o"], [0]), (["l", "h"], [0, None])):
+                add("pin-after-validate", name, ["v", T, "D" + wrongd.hex()] + tail, [1, 1, 1] + te, "validated unpinned, then wrong digest pinned")
+                add("pin-after-validate", name, ["v", "L%d" % (total + 1)] + tail, [1, 1] + te, "validated unpinned, then wrong length pinned")
+                add("pin-after-validate", name, ["v", "T%d" % ((t + 1) % 4)] + tail, [1, 1] + te, "validated unpinned, then wrong type pinned")
+                add("pin-after-validate", name, [T, "D" + hx.hex(), "v", "L%d" % (total - 1)] + tail, [1, 1, 1, 1] + te, "validated under the right digest, then wrong length pinned")
+                add("pin-after-validate", name, ["L%d" % total, "v", T, "D" + wrongd.hex()] + tail, [1, 1, 1, 1] + te, "validated under the right length, then wrong digest pinned")
+                add("pin-after-validate", name, ["v", "v", T, "D" + wrongd.hex(), "L%d" % total] + tail, [1, 1, 1, 1, 1] + te, "validated twice, then wrong digest pinned")
+            add("pin-after-validate", name, ["v", T, "D" + hx.hex(), "L%d" % total, "v", "l", "h"], [1, 1, 1, 1, 1, 1, 1 if ok else 0], "validated unpinned, then everything pinned right")
+            add("pin-after-validate", name, ["v", T, "D" + hx.upper().hex(), "o"], [1, 1, 1, 1 if ok else 0], "validated unpinned, right digest pinned, opened")
+            add("pin-after-validate", name, [T, "D" + wrongd.hex(), "v", "c", "v", "c", "l"], [1, 1, 0, None, 0, None, 0], "wrong digest: refused again after the error is cleared")
             # order: digest before type must be refused; type after digest must be refused
             add("order", name, ["D" + hx.hex()], [0], "digest before type")
             add("order", name, [T, "D" + hx.hex(), T], [1, 1, 0], "type after digest")
